@@ -130,21 +130,60 @@ class Result:
 
 class SerialOb:
     """picklable obligation: SMT-LIB2 text instead of z3 ASTs (crosses process boundaries)"""
-    __slots__ = ("name", "kind", "func", "line", "note", "smt2", "smt2_qf")
+    __slots__ = ("name", "kind", "func", "line", "note", "smt2", "smt2_qf", "slices")
 
-    def __init__(self, name, kind, func, line, note, smt2, smt2_qf=None):
+    def __init__(self, name, kind, func, line, note, smt2, smt2_qf=None, slices=()):
         self.name, self.kind, self.func, self.line, self.note = name, kind, func, line, note
         self.smt2, self.smt2_qf = smt2, smt2_qf
+        self.slices = list(slices)      # sub-sets of the hypotheses (unsat there is a proof), tried before the full query
+
+
+def array_symbols(e, cache=None):
+    """names of the uninterpreted array-sorted constants (heap fields, ghost views) occurring in e"""
+    out, seen, stack = set(), set(), [e]
+    while stack:
+        x = stack.pop()
+        i = x.get_id()
+        if i in seen:
+            continue
+        seen.add(i)
+        if z3.is_quantifier(x):
+            stack.append(x.body())
+            continue
+        if z3.is_app(x):
+            if x.num_args() == 0 and x.decl().kind() == z3.Z3_OP_UNINTERPRETED and z3.is_array(x):
+                out.add(x.decl().name())
+            stack.extend(x.children())
+    return out
 
 
 def serialize(ob):
     if isinstance(ob, SerialOb):
         return ob
-    qf = [h for h in ob.hyps if not has_quantifier(h)]
+    quant = [has_quantifier(h) for h in ob.hyps]
+    qf = [h for h, q in zip(ob.hyps, quant) if not q]
     t1 = None
-    if len(qf) != len(ob.hyps) and not has_quantifier(ob.goal):
+    slices = []
+    nq = sum(quant)
+    if nq and not has_quantifier(ob.goal):
         t1 = to_smt2(qf, ob.goal)
-    return SerialOb(ob.name, ob.kind, ob.func, ob.line, ob.note, to_smt2(ob.hyps, ob.goal), t1)
+    if nq >= 4:
+        # relevance slices: quantifier-free hypotheses + the quantified ones that share a heap/ghost array with the goal
+        # (level 1) or with level 1 (level 2).  Fewer hypotheses: unsat is still a proof.
+        syms = [array_symbols(h) if q else None for h, q in zip(ob.hyps, quant)]
+        cur = array_symbols(ob.goal)
+        prev_n = -1
+        for level in range(2):
+            pick = [i for i, (q, sy) in enumerate(zip(quant, syms)) if q and (sy & cur)]
+            if len(pick) == nq or len(pick) == prev_n:
+                break
+            prev_n = len(pick)
+            keep = set(pick)
+            hy = [h for i, h in enumerate(ob.hyps) if (not quant[i]) or i in keep]
+            slices.append(to_smt2(hy, ob.goal))
+            for i in pick:
+                cur = cur | syms[i]
+    return SerialOb(ob.name, ob.kind, ob.func, ob.line, ob.note, to_smt2(ob.hyps, ob.goal), t1, slices)
 
 
 def serialize_cover(named):
@@ -168,46 +207,50 @@ def has_quantifier(e):
     return False
 
 
+def _pipeline(ob, timeout_ms, tac, retry_ms, use_cvc5):
+    """one obligation, start to finish, inside a worker:  quantifier-free hypotheses -> relevance slices -> all
+    hypotheses -> cvc5 -> retry.  `unsat` on a subset of the hypotheses is a proof; `sat` only counts on the full set."""
+    t0 = time.time()
+    model1 = None
+    if ob.smt2_qf is not None:
+        r, model1, _, _ = _solve(ob.smt2_qf, timeout_ms, tac, True)
+        if r == "unsat":
+            return "proved", "z3", time.time() - t0, None, ""
+        for sm in ob.slices:
+            r, _, _, _ = _solve(sm, min(timeout_ms, 8000), tac, False)
+            if r == "unsat":
+                return "proved", "z3", time.time() - t0, None, ""
+    # a candidate counter-model already exists: the full query (with quantified clauses) gets a short budget
+    r, model, _, reason = _solve(ob.smt2, min(timeout_ms, 10000) if model1 is not None else timeout_ms, tac, True)
+    if model is None:
+        model = model1
+    backend = "z3"
+    if r in ("unknown", "error") and use_cvc5 and model1 is None:
+        r2, _, _, reason2 = _cvc5(ob.smt2, retry_ms or timeout_ms * 3)
+        if r2 in ("sat", "unsat"):
+            r, backend, reason = r2, "cvc5", reason2
+    if r in ("unknown", "error") and retry_ms:
+        r3, model3, _, _ = _solve(ob.smt2, retry_ms, None, True)
+        if r3 in ("sat", "unsat"):
+            r, model, backend = r3, model3, "z3-retry"
+    status = {"unsat": "proved", "sat": "refuted"}.get(r, "unknown")
+    if status == "unknown" and model1 is not None:
+        # satisfiable without the quantified axioms, undecided with them: candidate counter-model
+        status, reason = "refuted", "candidate model (quantified axioms not decided): " + str(reason)
+    return status, backend, time.time() - t0, model, reason
+
+
 def discharge(obligations, timeout_ms=20000, tactic=None, retry_ms=None, use_cvc5=True, per_ob_tactic=None):
-    """obligations: list of symexec.Obligation.  Returns list of Result (status: proved | refuted | unknown).
-    Phase 1 drops the quantified hypotheses (heap well-formedness axioms): unsat there is a proof (fewer
-    hypotheses), sat there is only a candidate counter-model, so phase 2 re-checks with every hypothesis."""
+    """obligations: list of symexec.Obligation.  Returns list of Result (status: proved | refuted | unknown)."""
     ex = pool()
-    futs = []
     obligations = [serialize(ob) for ob in obligations]
+    futs = []
     for ob in obligations:
         tac = per_ob_tactic(ob) if per_ob_tactic else tactic
-        f1 = ex.submit(_solve, ob.smt2_qf, timeout_ms, tac, True) if ob.smt2_qf is not None else None
-        f2 = ex.submit(_solve, ob.smt2, timeout_ms, tac, True) if f1 is None else None
-        futs.append((f1, f2, ob.smt2, tac))
+        futs.append(ex.submit(_pipeline, ob, timeout_ms, tac, retry_ms, use_cvc5))
     results = []
-    for ob, (f1, f2, txt, tac) in zip(obligations, futs):
-        model1 = None
-        t_acc = 0.0
-        if f1 is not None:
-            r, model1, t_acc, reason = f1.result()
-            if r == "unsat":
-                results.append(Result(ob.name, "proved", "z3", t_acc, None, "", ob))
-                continue
-            # a candidate counter-model already exists: the full query (with quantified clauses) gets a short budget
-            f2 = ex.submit(_solve, txt, min(timeout_ms, 10000) if model1 is not None else timeout_ms, tac, True)
-        r, model, t, reason = f2.result()
-        t += t_acc
-        if model is None:
-            model = model1
-        backend = "z3"
-        if r in ("unknown", "error") and use_cvc5 and model1 is None:
-            r2, _, t2, reason2 = _cvc5(txt, retry_ms or timeout_ms * 3)
-            if r2 in ("sat", "unsat"):
-                r, backend, t, reason = r2, "cvc5", t + t2, reason2
-        if r in ("unknown", "error") and retry_ms:
-            r3, model3, t3, reason3 = ex.submit(_solve, txt, retry_ms, tac if False else None, True).result()
-            if r3 in ("sat", "unsat"):
-                r, model, t, backend = r3, model3, t + t3, "z3-retry"
-        status = {"unsat": "proved", "sat": "refuted"}.get(r, "unknown")
-        if status == "unknown" and model1 is not None:
-            # satisfiable without the quantified axioms, undecided with them: candidate counter-model
-            status, reason = "refuted", "candidate model (quantified axioms not decided): " + str(reason)
+    for ob, fu in zip(obligations, futs):
+        status, backend, t, model, reason = fu.result()
         results.append(Result(ob.name, status, backend, t, model, reason, ob))
     return results
 
